@@ -177,12 +177,18 @@ class Spinner:
         self._junk = []
         self._debug = debug
         self._spinning = False
+        self._interrupted = False
 
     def _cancel_timeout(self):
         if self._timeout_call:
             self._timeout_call.cancel()
 
     def _get_result(self):
+        if self._interrupted:
+            # The reactor was told to stop (SIGINT, say) while we were still
+            # waiting: that wins even if the Deferred went on to fire in the
+            # same reactor iteration.
+            raise NoResultError()
         if self._failure is not self._UNSET:
             self._failure.raiseException()  # type: ignore
         if self._success is not self._UNSET:
@@ -206,6 +212,8 @@ class Spinner:
 
         Spinner never calls this method.
         """
+        if self._spinning:
+            self._interrupted = True
         self._reactor.crash()
 
     def _stop_reactor(self, ignored=None):
@@ -303,6 +311,7 @@ class Spinner:
             # its own function's result (or the lack of one).
             self._success = self._UNSET
             self._failure = self._UNSET
+            self._interrupted = False
             self._save_signals()
             self._timeout_call = self._reactor.callLater(
                 timeout, self._timed_out, function, timeout
